@@ -140,6 +140,15 @@ class LazyUniform:
         if t >= self.hi:
             return True
         pb = (t - self.lo) / (self.hi - self.lo)
+        # Thresholds within 1e-12 (relative) of an end of the interval are rounding artefacts of float sums such as
+        # 0.6 + 0.3 + 0.1 = 1 - 2**-53; a real generator (53-bit grid) essentially never lands beyond them, so such a
+        # comparison is answered without creating a branch of probability ~1e-16.
+        if pb > 1 - 1e-12:
+            self.hi = min(self.hi, t)
+            return True
+        if pb < 1e-12:
+            self.lo = max(self.lo, t)
+            return False
         try:
             pbq = Fraction(t) - Fraction(self.lo)
             pbq = pbq / (Fraction(self.hi) - Fraction(self.lo))
